@@ -2,6 +2,8 @@ package c19
 
 import (
 	"fmt"
+	"os"
+	goruntime "runtime"
 	"sort"
 	"strings"
 	"sync"
@@ -36,9 +38,10 @@ type edge struct {
 //	fan   OneToManyNode: out[0] ← v, out[1] ← v + 100
 //	join  ManyToOneNode with in[0], in[1]: out ← a + b
 type nodeSpec struct {
-	kind string
-	c    int
-	outs map[string]edge
+	kind  string
+	c     int
+	gated bool // pass | split | fan only: the action blocks until the harness releases it
+	outs  map[string]edge
 }
 
 type flowSpec struct {
@@ -54,7 +57,11 @@ func (fs flowSpec) String() string {
 			es = append(es, fmt.Sprintf("%s>%d.%s", name, e.to, e.port))
 		}
 		sort.Strings(es)
-		parts = append(parts, fmt.Sprintf("%d:%s%d(%s)", i, n.kind, n.c, strings.Join(es, ",")))
+		g := ""
+		if n.gated {
+			g = "g"
+		}
+		parts = append(parts, fmt.Sprintf("%d:%s%d%s(%s)", i, n.kind, n.c, g, strings.Join(es, ",")))
 	}
 	return fs.name + "{" + strings.Join(parts, " ") + "}"
 }
@@ -92,7 +99,65 @@ func intOf(p *packet.Packet) int {
 	return v
 }
 
-func mkNode(ns nodeSpec) node.Node {
+// gates hold the actions of gated nodes back: an action announces itself on `entered` and then
+// waits for the harness to release it (one forward goroutine, hence one action at a time, per
+// node and process).
+type gateKey struct {
+	node int
+	proc *process.Process
+}
+
+type gateEv struct {
+	node  int
+	proc  *process.Process
+	value int
+}
+
+type gates struct {
+	mu      sync.Mutex
+	entered chan gateEv
+	rel     map[gateKey]chan struct{}
+}
+
+func newGates() *gates {
+	return &gates{entered: make(chan gateEv, 256), rel: map[gateKey]chan struct{}{}}
+}
+
+func (g *gates) ch(k gateKey) chan struct{} {
+	g.mu.Lock()
+	defer g.mu.Unlock()
+	c, ok := g.rel[k]
+	if !ok {
+		c = make(chan struct{})
+		g.rel[k] = c
+	}
+	return c
+}
+
+func (g *gates) wait(node int, proc *process.Process, v int) {
+	g.entered <- gateEv{node, proc, v}
+	select {
+	case <-g.ch(gateKey{node, proc}):
+	case <-proc.Done(): // the process was terminated while the action was held
+	}
+}
+
+// release lets the action running in (node, proc) return; false when none took it within the watchdog.
+func (g *gates) release(node int, proc *process.Process) bool {
+	select {
+	case g.ch(gateKey{node, proc}) <- struct{}{}:
+		return true
+	case <-time.After(watchdog):
+		return false
+	}
+}
+
+func mkNode(ns nodeSpec, idx int, g *gates) node.Node {
+	hold := func(proc *process.Process, v int) {
+		if ns.gated {
+			g.wait(idx, proc, v)
+		}
+	}
 	switch ns.kind {
 	case "src":
 		return &endNode{outs: map[string]*port.OutPort{"out": port.NewOut()}}
@@ -100,21 +165,24 @@ func mkNode(ns nodeSpec) node.Node {
 		return &endNode{ins: map[string]*port.InPort{"in": port.NewIn()}}
 	case "pass":
 		c := ns.c
-		return node.NewOneToOneNode(func(_ *process.Process, in *packet.Packet) (*packet.Packet, *packet.Packet) {
+		return node.NewOneToOneNode(func(proc *process.Process, in *packet.Packet) (*packet.Packet, *packet.Packet) {
+			hold(proc, intOf(in))
 			return packet.New(types.NewInt(intOf(in) + c)), nil
 		})
 	case "split":
 		c := ns.c
-		return node.NewOneToOneNode(func(_ *process.Process, in *packet.Packet) (*packet.Packet, *packet.Packet) {
+		return node.NewOneToOneNode(func(proc *process.Process, in *packet.Packet) (*packet.Packet, *packet.Packet) {
 			v := intOf(in)
+			hold(proc, v)
 			if ((v%2)+2)%2 == c {
 				return nil, packet.New(types.NewInt(v))
 			}
 			return packet.New(types.NewInt(v)), nil
 		})
 	case "fan":
-		return node.NewOneToManyNode(func(_ *process.Process, in *packet.Packet) ([]*packet.Packet, *packet.Packet) {
+		return node.NewOneToManyNode(func(proc *process.Process, in *packet.Packet) ([]*packet.Packet, *packet.Packet) {
 			v := intOf(in)
+			hold(proc, v)
 			return []*packet.Packet{packet.New(types.NewInt(v)), packet.New(types.NewInt(v + 100))}, nil
 		})
 	case "join":
@@ -132,7 +200,8 @@ type flow struct {
 	table *symbol.Table
 	syms  []*symbol.Symbol
 	agent *runtime.Agent // nil: detached
-	loads []int          // Load calls seen per symbol (through a counting load hook)
+	gates *gates
+	loads []int // Load calls seen per symbol (through a counting load hook)
 }
 
 type countHook struct {
@@ -151,7 +220,7 @@ func (h *countHook) Load(sb *symbol.Symbol) error {
 // build creates the symbols inside a real symbol.Table; the agent
 // (when given) is attached through the table's load / unload hooks, as cmd/pkg/cli/start.go does.
 func build(fs flowSpec, agent *runtime.Agent) (*flow, error) {
-	f := &flow{spec: fs, agent: agent, loads: make([]int, len(fs.nodes))}
+	f := &flow{spec: fs, agent: agent, loads: make([]int, len(fs.nodes)), gates: newGates()}
 	opt := symbol.TableOption{}
 	if agent != nil {
 		opt.LoadHooks = append(opt.LoadHooks, agent)
@@ -166,7 +235,7 @@ func build(fs flowSpec, agent *runtime.Agent) (*flow, error) {
 		}
 		sb := &symbol.Symbol{
 			Spec: &spec.Meta{ID: uuid.Must(uuid.NewV7()), Kind: ns.kind, Namespace: "default", Name: fmt.Sprintf("n%d", i), Ports: ports},
-			Node: mkNode(ns),
+			Node: mkNode(ns, i, f.gates),
 		}
 		if ns.kind == "join" { // materialise both in-ports before anything links to in[1] only
 			sb.In("in[0]")
@@ -202,37 +271,84 @@ type arrival struct {
 	write int // index of the source write it derives from
 }
 
-// interp is the harness's own reading of the workflow: which sink sees which value.
-type interp struct {
-	fs    flowSpec
-	joinQ map[int]*[2][]int // per join node, per in-port: queued values (per process handled by caller)
+type item struct {
+	value int
+	write int
 }
 
-func newInterp(fs flowSpec) *interp { return &interp{fs: fs, joinQ: map[int]*[2][]int{}} }
+// wstate: where the packets derived from one source write are.
+type wstate struct {
+	src         int
+	inside      int // queued at, or being processed by, a node
+	outstanding int // arrived at a sink, not yet answered
+}
 
-func (ip *interp) deliver(n int, inPort string, v int, write int, out *[]arrival) {
-	ns := ip.fs.nodes[n]
-	fwd := func(name string, v int) {
-		if e, ok := ns.outs[name]; ok {
-			ip.deliver(e.to, e.port, v, write, out)
-		}
+func (w *wstate) done() bool { return w.inside == 0 && w.outstanding == 0 }
+
+type nstate struct {
+	queue []item
+	busy  bool
+	cur   item
+}
+
+// interp is the harness's own reading of the workflow for one process: every node handles the
+// packets of its in-port one at a time, in arrival order; a gated node holds the packet it is
+// handling until released; sinks see what the leaves emit.
+type interp struct {
+	fs     flowSpec
+	joinQ  map[int]*[2][]int
+	nodes  map[int]*nstate
+	writes []*wstate
+	// events the last step must cause
+	entered  []enteredEv
+	arrivals []arrival
+}
+
+type enteredEv struct {
+	node  int
+	value int
+}
+
+func newInterp(fs flowSpec) *interp {
+	return &interp{fs: fs, joinQ: map[int]*[2][]int{}, nodes: map[int]*nstate{}}
+}
+
+func (ip *interp) clear() { ip.entered, ip.arrivals = nil, nil }
+
+func (ip *interp) node(n int) *nstate {
+	st := ip.nodes[n]
+	if st == nil {
+		st = &nstate{}
+		ip.nodes[n] = st
 	}
+	return st
+}
+
+// write starts a new source write and returns its index.
+func (ip *interp) write(src, v int) int {
+	w := len(ip.writes)
+	ip.writes = append(ip.writes, &wstate{src: src})
+	ip.deliver(src, "", item{v, w})
+	return w
+}
+
+func (ip *interp) deliver(n int, inPort string, it item) {
+	ns := ip.fs.nodes[n]
 	switch ns.kind {
 	case "src":
-		fwd("out", v)
-	case "sink":
-		*out = append(*out, arrival{sink: n, value: v, write: write})
-	case "pass":
-		fwd("out", v+ns.c)
-	case "split":
-		if ((v%2)+2)%2 == ns.c {
-			fwd("error", v)
-		} else {
-			fwd("out", v)
+		if e, ok := ns.outs["out"]; ok {
+			ip.deliver(e.to, e.port, it)
 		}
-	case "fan":
-		fwd("out[0]", v)
-		fwd("out[1]", v+100)
+	case "sink":
+		ip.arrivals = append(ip.arrivals, arrival{sink: n, value: it.value, write: it.write})
+		ip.writes[it.write].outstanding++
+	case "pass", "split", "fan":
+		st := ip.node(n)
+		st.queue = append(st.queue, it)
+		ip.writes[it.write].inside++
+		if !st.busy {
+			ip.start(n)
+		}
 	case "join":
 		q := ip.joinQ[n]
 		if q == nil {
@@ -243,12 +359,65 @@ func (ip *interp) deliver(n int, inPort string, v int, write int, out *[]arrival
 		if inPort == "in[1]" {
 			idx = 1
 		}
-		q[idx] = append(q[idx], v)
+		q[idx] = append(q[idx], it.value)
 		if len(q[0]) > 0 && len(q[1]) > 0 {
 			a, b := q[0][0], q[1][0]
 			q[0], q[1] = q[0][1:], q[1][1:]
-			fwd("out", a+b)
+			if e, ok := ns.outs["out"]; ok {
+				ip.deliver(e.to, e.port, item{a + b, it.write})
+			}
 		}
+	}
+}
+
+func (ip *interp) start(n int) {
+	st := ip.node(n)
+	st.cur, st.queue, st.busy = st.queue[0], st.queue[1:], true
+	if ip.fs.nodes[n].gated {
+		ip.entered = append(ip.entered, enteredEv{n, st.cur.value})
+		return
+	}
+	ip.finish(n)
+}
+
+// blocked lists the gated nodes whose action is being held.
+func (ip *interp) blocked() []int {
+	var out []int
+	for n := range ip.fs.nodes {
+		if st := ip.nodes[n]; st != nil && st.busy && ip.fs.nodes[n].gated {
+			out = append(out, n)
+		}
+	}
+	return out
+}
+
+// finish: the action of node n returns; its outputs travel on; the node takes its next packet.
+func (ip *interp) finish(n int) {
+	st := ip.node(n)
+	ns := ip.fs.nodes[n]
+	it := st.cur
+	st.busy = false
+	ip.writes[it.write].inside--
+	fwd := func(name string, v int) {
+		if e, ok := ns.outs[name]; ok {
+			ip.deliver(e.to, e.port, item{v, it.write})
+		}
+	}
+	switch ns.kind {
+	case "pass":
+		fwd("out", it.value+ns.c)
+	case "split":
+		if ((it.value%2)+2)%2 == ns.c {
+			fwd("error", it.value)
+		} else {
+			fwd("out", it.value)
+		}
+	case "fan":
+		fwd("out[0]", it.value)
+		fwd("out[1]", it.value+100)
+	}
+	if !st.busy && len(st.queue) > 0 {
+		ip.start(n)
 	}
 }
 
@@ -295,6 +464,10 @@ func (s *session) exit() {
 	select {
 	case <-done:
 	case <-time.After(watchdog):
+		if os.Getenv("C19_TRACE") != "" {
+			buf := make([]byte, 1<<18)
+			fmt.Fprintf(os.Stderr, "session.exit: sink readers not closed after %v\n%s\n", watchdog, buf[:goruntime.Stack(buf, true)])
+		}
 	}
 }
 
